@@ -27,7 +27,7 @@ func init() { props["C12"] = c12 }
 
 func c12(c *Ctx) {
 	budget := time.Duration(c.N(25, 480)) * time.Second
-	c.Rule = "stress under the Go race detector: goroutine counts {2,4,8,16,32} x seeded random mixes of ParseString / Do on shared operations (shared and separate data) / CueValidate with repeated and never-seen cache keys, randomised yields; every concurrent result compared with the same call run alone. evaluations = calls executed concurrently; non-trivial = every call (each is compared); distinct = calls (seeded plans differ per round)."
+	c.Rule = "stress under the Go race detector: goroutine counts {2,4,8,16,32} x seeded random mixes of ParseString / Do on shared operations (shared and separate data) / CueValidate with repeated and never-seen cache keys, documents whose keys are spelled in another case per goroutine, randomised yields; the goroutines are released together and each starts with something nobody has done yet in the process (first parse of an unknown function name / first validation of a schema / first evaluation of a regular expression); every concurrent result compared with the same call run alone. evaluations = calls executed concurrently; non-trivial = every call (each is compared); distinct = calls (seeded plans differ per round)."
 	bin := filepath.Join(c.Root, "build", "harness", "stress")
 	if _, err := os.Stat(bin); err != nil {
 		c.Violation("proof", "the race-detector stress binary was not built: "+err.Error(), map[string]any{"kind": "proof", "theorem": "<stress binary>"})
